@@ -100,6 +100,11 @@ class RxStim:
         self.steps.append({"a": bool(a), "v": bool(v), "d": d, "addr": self.addr, "speed": self.speed})
         self.quiet = 0 if a else self.quiet + 1
 
+    def reset_here(self, cycles=1):
+        """Assert the domain reset in the last `cycles` cycles emitted so far."""
+        for st in self.steps[-cycles:]:
+            st["rst"] = True
+
     def idle(self, n=1):
         for _ in range(n):
             self._emit(0, 0, 0)
@@ -107,7 +112,7 @@ class RxStim:
     def set_addr(self, addr):
         if addr == self.addr:
             return
-        while self.quiet < LAT + 1:
+        while self.quiet < 1:           # Env: the address is stable while rx_active is high and in the cycle it falls
             self.idle()
         self.addr = addr
         self.idle()
@@ -338,16 +343,57 @@ def random_soup(rng, mode, packets, addr_pool, speed=1, fixed_addr=None):
                 st.packet([rng.randrange(256)], gp)
             else:
                 st.packet(H.data_bytes("DATA1", [rng.randrange(256) for _ in range(rng.randint(0, 3))]), gp)
+        if fixed_addr is None and rng.random() < 0.15:
+            # the address input changes in the cycle right after the one in which the detector has to sample it
+            del st.steps[-(MIN_GAP - 1):]
+            st.quiet = 1
+            st.set_addr(rng.choice(addr_pool))
         if rng.random() < 0.3:
             st.idle(rng.randint(1, 6))
     st.idle(LAT + 2)
     return st
 
 
+def usb_top(dut, extra=None):
+    """Wrap `dut` in a module that declares the "usb" clock domain explicitly, so that the domain's reset
+    (top.cd.rst) can be asserted by the testbench.  `extra(m)` may add glue logic."""
+    from amaranth import Module, Elaboratable, ClockDomain
+
+    class Top(Elaboratable):
+        def __init__(self):
+            self.cd = ClockDomain("usb")
+
+        def elaborate(self, platform):
+            m = Module()
+            m.domains.usb = self.cd
+            m.submodules.dut = dut
+            if extra is not None:
+                extra(m)
+            return m
+    return Top()
+
+
+def with_resets(rng, steps, n):
+    """Copy of a stimulus with the domain reset asserted at n random places (1-2 cycles each): in the middle of
+    packets, in report windows and while idle - any cycle is a legal place for a reset."""
+    steps = [dict(st) for st in steps]
+    for _ in range(n):
+        k = rng.randrange(len(steps))
+        for j in range(k, min(len(steps), k + rng.choice([1, 1, 2]))):
+            steps[j]["rst"] = True
+    return steps
+
+
+TOKDET_CONFIGS = [   # (filter_by_address, domain_clock, fs_only) - every documented constructor combination
+    (True, 60e6, False), (True, 60e6, True), (True, 12e6, True),
+    (False, 60e6, False), (False, 60e6, True), (False, 12e6, True),
+]
+
+
 class DetectorDriver:
     """Drives a real USBTokenDetector / USBHandshakeDetector on a UTMIInterface cycle by cycle."""
 
-    def __init__(self, mode, domain_clock=60e6, fs_only=False):
+    def __init__(self, mode, domain_clock=60e6, fs_only=False, filter_by_address=True):
         use_repo()
         from amaranth.sim import Simulator
         from luna.gateware.interface.utmi import UTMIInterface
@@ -355,10 +401,12 @@ class DetectorDriver:
         self.mode = mode
         self.utmi = UTMIInterface()
         if mode == "token":
-            self.dut = USBTokenDetector(utmi=self.utmi, domain_clock=domain_clock, fs_only=fs_only)
+            self.dut = USBTokenDetector(utmi=self.utmi, domain_clock=domain_clock, fs_only=fs_only,
+                                        filter_by_address=filter_by_address)
         else:
             self.dut = USBHandshakeDetector(utmi=self.utmi)
-        self.sim = Simulator(self.dut)
+        self.top = usb_top(self.dut)
+        self.sim = Simulator(self.top)
         self.sim.add_clock(1 / domain_clock, domain="usb")
         self.sim.add_testbench(self._bench)
         self._first = True
@@ -380,7 +428,8 @@ class DetectorDriver:
             put(u.rx_active, "a", int(st["a"]))
             put(u.rx_valid, "v", int(st["v"]))
             put(u.rx_data, "d", st["d"])
-            r = {"a": st["a"], "v": st["v"], "d": st["d"], "addr": st["addr"]}
+            put(self.top.cd.rst, "rst", int(st.get("rst", False)))
+            r = {"a": st["a"], "v": st["v"], "d": st["d"], "addr": st["addr"], "rst": bool(st.get("rst", False))}
             ev = []
             if self.mode == "token":
                 put(dut.address, "addr", st["addr"])
@@ -422,7 +471,7 @@ class DetectorDriver:
         return self._rec
 
 
-PKT_FIELDS = ("a", "v", "d", "addr", "ev", "frame", "sel")
+PKT_FIELDS = ("a", "v", "d", "addr", "rst", "ev", "frame", "sel")
 
 
 def pkt_trace(rec):
@@ -457,7 +506,7 @@ def sim_behaviours_to_stims(behs):
     for b in behs:
         stim = [dict(st["in"], speed=1) for _, st in b[1:]]
         if stim:
-            stim += [dict(stim[-1], a=False, v=False, d=0)] * (LAT + 2)      # let the last window close
+            stim += [dict(stim[-1], a=False, v=False, d=0, rst=False)] * (LAT + 2)      # let the last window close
             out.append(stim)
     return out
 
@@ -473,39 +522,56 @@ def check_C01(rep):
                 "distinct by (length class, first three bytes, check-nibble validity, CRC5 validity, own/foreign address)")
     rep.assume("rx_valid only while rx_active, and not in the cycle rx_active rises")
     rep.assume("rx_active stays low for at least %d cycles between packets" % MIN_GAP)
-    rep.assume("the device address changes only after the bus has been idle for more than %d cycles" % LAT)
+    rep.assume("the device address is stable while rx_active is high and in the cycle it falls (where it is sampled); "
+               "it may change in any later cycle")
+    rep.assume("after a domain reset in the middle of a packet, what the detector reports for the rest of that "
+               "packet is not constrained; a reset clears the owed event and the frame number")
     rep.assume("an event is reported in one of the %d cycles starting with the first cycle rx_active is low "
                "(which one is left free)" % (LAT + 1))
-    rep.assume("USBTokenDetector(filter_by_address=True) only")
-
-    base = {"Mode": '"token"', "Lat": LAT, "MinGap": MIN_GAP}
+    base0 = {"Mode": '"token"', "Lat": LAT, "MinGap": MIN_GAP}
+    base = dict(base0, FilterByAddress=True)
     if quick:
         mcs = [dict(base, PidBytes={0xE1, 0xB4, 0xA5, 0xF1, 0xC3}, Payloads={5, 682}, Addrs={0, 5},
-                    MaxPackets=2, MaxExtra=1)]
+                    MaxPackets=2, MaxExtra=1, MaxResets=0),
+               dict(base, PidBytes={0xE1, 0xA5, 0xF1}, Payloads={5, 682}, Addrs={0, 5},
+                    MaxPackets=2, MaxExtra=1, MaxResets=1),
+               dict(base0, FilterByAddress=False, PidBytes={0xE1, 0xB4, 0xA5, 0xF1}, Payloads={5, 682}, Addrs={0, 5},
+                    MaxPackets=1, MaxExtra=1, MaxResets=1)]
     else:
         mcs = [dict(base, PidBytes={0xE1, 0x69, 0x2D, 0xB4, 0xA5, 0xF1, 0xC3, 0xD2}, Payloads={5, 133, 682}, Addrs={0, 5},
-                    MaxPackets=2, MaxExtra=1),
+                    MaxPackets=2, MaxExtra=1, MaxResets=0),
                dict(base, PidBytes={0xE1, 0xA5}, Payloads={5, 2047}, Addrs={5, 127},
-                    MaxPackets=3, MaxExtra=1)]
-    for sub in mcs:
-        res = tlc.model_check(SPEC_DIR, "MCPktDet", tlc.render_cfg(_cfg("MCPktDet.cfg.tmpl"), sub),
-                              workers=8, timeout=3000)
+                    MaxPackets=3, MaxExtra=1, MaxResets=0),
+               dict(base, PidBytes={0xE1, 0xB4, 0xA5, 0xF1, 0xC3}, Payloads={5, 682}, Addrs={0, 5},
+                    MaxPackets=2, MaxExtra=1, MaxResets=1),
+               dict(base0, FilterByAddress=False, PidBytes={0xE1, 0xB4, 0xA5, 0xF1, 0xC3}, Payloads={5, 682}, Addrs={0, 5},
+                    MaxPackets=2, MaxExtra=1, MaxResets=1)]
+    runs = [("MCPktDet", tlc.render_cfg(_cfg("MCPktDet.cfg.tmpl"), sub),
+             {"workers": 6, "timeout": 3000, "allow_uncovered": () if sub["MaxResets"] else ("Reset",)}) for sub in mcs]
+    for sub, res in zip(mcs, model_check_many(SPEC_DIR, runs, jobs=2)):
         rep.add_mc("MCPktDet token", res, {k: (sorted(v) if isinstance(v, set) else v) for k, v in sub.items()})
 
+    # DUT configurations: the default one carries the systematic sweeps; the soups are additionally run on the other
+    # constructor combinations (quick: one filtering and one non-filtering configuration, rotated by the seed;
+    # thorough: all six).
     drv = DetectorDriver("token")
-    items = []
+    items = []                 # filter_by_address=True traces
+    items_nf = []              # filter_by_address=False traces
 
-    def run(stim, origin, st=None):
-        rec = drv.run(stim)
+    def run(stim, origin, st=None, driver=None, cfgname="filter/60MHz"):
+        d = driver or drv
+        rec = d.run(stim)
         rep.add_eval(len(rec))
-        items.append((pkt_trace(rec), {"dut": "USBTokenDetector", "origin": origin}))
+        (items if cfgname.startswith("filter") else items_nf).append(
+            (pkt_trace(rec), {"dut": "USBTokenDetector", "config": cfgname, "origin": origin}))
         if st is not None:
             note_packets(rep, "token", st)
+            rep.nontriv(("config", cfgname, origin))
         return rec
 
     # (A) spec -> code: behaviours simulated by TLC
     sub = dict(base, PidBytes={0xE1, 0x69, 0x2D, 0xB4, 0xA4, 0xA5, 0xF1, 0xC3, 0xD2}, Payloads={0, 5, 133, 682, 2047},
-               Addrs={0, 5, 127}, MaxPackets=8, MaxExtra=2)
+               Addrs={0, 5, 127}, MaxPackets=8, MaxExtra=2, MaxResets=1)
     behs = tlc.simulate(SPEC_DIR, "MCPktDet", tlc.render_cfg(_cfg("MCPktDet_sim.cfg.tmpl"), sub),
                         num=20 if quick else 300, depth=70, seed=rep.seed * 5 + 1, timeout=1800)
     drift = 0
@@ -554,9 +620,35 @@ def check_C01(rep):
     overlong_rescan_section(rng, run, quick)
     # (B) random soups, changing address; all 128 addresses in the thorough tier
     pool = list(range(128)) if not quick else [0, 1, 0x3A, 0x40, 0x55, 0x7F, rng.randrange(128), rng.randrange(128)]
-    for _ in range(14 if quick else 300):
+    for n in range(14 if quick else 300):
         st = random_soup(rng, "token", 30, pool)
         run(st.steps, "random-soup", st)
+        if n % 3 == 0:          # the same soup again with domain resets sprinkled over it
+            run(with_resets(rng, st.steps, rng.randint(1, 3)), "random-soup-with-resets")
+    # the other constructor configurations
+    others_f = [c for c in TOKDET_CONFIGS[1:] if c[0]]
+    others_nf = [c for c in TOKDET_CONFIGS if not c[0]]
+    chosen = ([others_f[rep.seed % len(others_f)], others_nf[rep.seed % len(others_nf)]] if quick
+              else others_f + others_nf)
+    elaborated = ["filter/60MHz"]
+    for flt, clk, fso in chosen:
+        name = "%s/%dMHz%s" % ("filter" if flt else "nofilter", clk / 1e6, "_fs_only" if fso else "")
+        elaborated.append(name)
+        d = DetectorDriver("token", domain_clock=clk, fs_only=fso, filter_by_address=flt)
+        for n in range(5 if quick else 40):
+            st = random_soup(rng, "token", 30, pool, speed=rng.choice([0, 1, 2]))
+            run(st.steps, "random-soup", st, driver=d, cfgname=name)
+            if n % 2 == 0:
+                run(with_resets(rng, st.steps, rng.randint(1, 3)), "random-soup-with-resets", driver=d, cfgname=name)
+        if not flt:            # without the filter: the same token at the own and at foreign addresses, SOFs, PING
+            st = RxStim(rng, addr=rng.randrange(128))
+            for pid in TOKEN_PIDS + ("SOF",):
+                for a in (st.addr, (st.addr + 1) & 0x7F, 0, 0x7F):
+                    st.packet(token_octets(pid, a | (rng.randrange(16) << 7)), gap_prob=0.2)
+                    st.packet(token_octets(pid, a | (rng.randrange(16) << 7), flip=rng.randrange(5)))
+            st.idle(LAT + 2)
+            run(st.steps, "all-addresses-reported", st, driver=d, cfgname=name)
+    rep.extra["configurations_elaborated"] = elaborated
     # the repository's own test packets (tests/test_usb2_packet.py)
     st = RxStim(rng, addr=0x3A)
     st.idle(10)
@@ -569,9 +661,14 @@ def check_C01(rep):
     rep.sample({"origin": "repository-test-packets",
                 "events": [{"cycle": n, "ev": r["ev"]} for n, r in enumerate(rec) if r["ev"]]})
 
-    cfg = tlc.render_cfg(_cfg("PktDetTrace.cfg.tmpl"), base)
-    validate_group_parallel(rep, SPEC_DIR, "PktDetTrace", cfg, items, classify=classify_pkt("token"),
-                            chunk=max(4, (len(items) + 5) // 6), what_prefix="USBTokenDetector ")
+    groups = [{"module": "PktDetTrace", "cfg": tlc.render_cfg(_cfg("PktDetTrace.cfg.tmpl"), base),
+               "items": items, "classify": classify_pkt("token"), "chunk": max(4, (len(items) + 5) // 6),
+               "what_prefix": "USBTokenDetector "},
+              {"module": "PktDetTrace",
+               "cfg": tlc.render_cfg(_cfg("PktDetTrace.cfg.tmpl"), dict(base0, FilterByAddress=False)),
+               "items": items_nf, "classify": classify_pkt("token"), "chunk": max(4, len(items_nf)),
+               "what_prefix": "USBTokenDetector(filter_by_address=False) "}]
+    validate_many(rep, SPEC_DIR, groups, jobs=7)
 
 
 # ------------------------------------------------------------------------------------------------------------
@@ -584,14 +681,15 @@ class GeneratorDriver:
         from ..sim import CycleDriver
         from luna.gateware.usb.usb2.packet import USBHandshakeGenerator
         dut = USBHandshakeGenerator()
-        self.drv = CycleDriver(dut, {"ack": dut.issue_ack, "nak": dut.issue_nak, "stall": dut.issue_stall,
-                                     "ready": dut.tx.ready},
+        top = usb_top(dut)
+        self.drv = CycleDriver(top, {"ack": dut.issue_ack, "nak": dut.issue_nak, "stall": dut.issue_stall,
+                                     "ready": dut.tx.ready, "rst": top.cd.rst},
                                {"valid": dut.tx.valid, "data": dut.tx.data}, domain="usb",
                                clocks={"usb": 1 / 60e6}, bool_outputs=("valid",),
-                               bool_inputs=("ack", "nak", "stall", "ready"))
+                               bool_inputs=("ack", "nak", "stall", "ready", "rst"))
 
     def run(self, stim):
-        return self.drv.run(stim)
+        return self.drv.run([dict(s, rst=s.get("rst", False)) for s in stim])
 
 
 def random_generator_stimulus(rng, n):
@@ -637,14 +735,20 @@ def check_C04(rep):
                "request strobes is left free" % GLAT)
 
     # ---- detector ----------------------------------------------------------------------------------------
-    base = {"Mode": '"handshake"', "Lat": LAT, "MinGap": MIN_GAP}
+    base = {"Mode": '"handshake"', "Lat": LAT, "MinGap": MIN_GAP, "FilterByAddress": True}
     allpids = set(range(256))
     mcs = [dict(base, PidBytes={0xD2, 0x5A, 0x1E, 0x96, 0xC2, 0xC3}, Payloads=set(), Addrs={0},
-                MaxPackets=2 if quick else 3, MaxExtra=2),
-           dict(base, PidBytes=allpids, Payloads=set(), Addrs={0}, MaxPackets=1, MaxExtra=2)]
-    for sub in mcs:
-        res = tlc.model_check(SPEC_DIR, "MCPktDet", tlc.render_cfg(_cfg("MCPktDet.cfg.tmpl"), sub),
-                              workers=8, timeout=3000, allow_uncovered=("Readdress",))
+                MaxPackets=2 if quick else 3, MaxExtra=2, MaxResets=0),
+           dict(base, PidBytes={0xD2, 0x96, 0xC2, 0xC3}, Payloads=set(), Addrs={0},
+                MaxPackets=2, MaxExtra=2, MaxResets=1),
+           dict(base, PidBytes=allpids, Payloads=set(), Addrs={0}, MaxPackets=1, MaxExtra=2, MaxResets=0)]
+    gsub = {"GLat": GLAT, "MaxReq": 2 if quick else 3, "MaxResets": 1}
+    runs = [("MCPktDet", tlc.render_cfg(_cfg("MCPktDet.cfg.tmpl"), sub),
+             {"workers": 5, "timeout": 3000,
+              "allow_uncovered": ("Readdress",) if sub["MaxResets"] else ("Readdress", "Reset")}) for sub in mcs]
+    runs.append(("MCHsGen", tlc.render_cfg(_cfg("MCHsGen.cfg.tmpl"), gsub), {"workers": 5, "timeout": 3000}))
+    results = model_check_many(SPEC_DIR, runs, jobs=2)
+    for sub, res in zip(mcs, results):
         b = {k: (sorted(v) if isinstance(v, set) and len(v) < 20 else (len(v) if isinstance(v, set) else v))
              for k, v in sub.items()}
         rep.add_mc("MCPktDet handshake", res, b)
@@ -661,7 +765,7 @@ def check_C04(rep):
         return rec
 
     sub = dict(base, PidBytes={0xD2, 0x5A, 0x1E, 0x96, 0xC2, 0xC3, 0xE1, 0x2D}, Payloads=set(), Addrs={0},
-               MaxPackets=8, MaxExtra=2)
+               MaxPackets=8, MaxExtra=2, MaxResets=1)
     behs = tlc.simulate(SPEC_DIR, "MCPktDet", tlc.render_cfg(_cfg("MCPktDet_sim.cfg.tmpl"), sub),
                         num=12 if quick else 200, depth=60, seed=rep.seed * 5 + 2, timeout=1800)
     for stim in sim_behaviours_to_stims(behs):
@@ -684,9 +788,11 @@ def check_C04(rep):
     rec = run(st.steps, "all-pid-bytes", st)
     # packets of 2..5 bytes whose later / last bytes are handshake PID bytes (or near misses), every rx_valid gap pattern
     multi_byte_section(rng, "handshake", run, quick)
-    for _ in range(8 if quick else 200):
+    for n in range(8 if quick else 200):
         st = random_soup(rng, "handshake", 30, [0], fixed_addr=0)
         run(st.steps, "random-soup", st)
+        if n % 2 == 0:          # the same soup again with domain resets sprinkled over it
+            run(with_resets(rng, st.steps, rng.randint(1, 3)), "random-soup-with-resets")
     st = RxStim(rng)          # tests/test_usb2_packet.py: the four handshakes
     for b in (0b11010010, 0b01011010, 0b00011110, 0b10010110):
         st.packet([b])
@@ -699,9 +805,7 @@ def check_C04(rep):
                             chunk=max(4, (len(items) + 3) // 4), what_prefix="USBHandshakeDetector ")
 
     # ---- generator ---------------------------------------------------------------------------------------
-    sub = {"GLat": GLAT, "MaxReq": 2 if quick else 3}
-    res = tlc.model_check(SPEC_DIR, "MCHsGen", tlc.render_cfg(_cfg("MCHsGen.cfg.tmpl"), sub), workers=8, timeout=3000)
-    rep.add_mc("MCHsGen", res, sub)
+    rep.add_mc("MCHsGen", results[-1], gsub)
     gen = GeneratorDriver()
     gitems = []
 
@@ -714,7 +818,7 @@ def check_C04(rep):
         gitems.append((rec, {"dut": "USBHandshakeGenerator", "origin": origin}))
         return rec
 
-    behs = tlc.simulate(SPEC_DIR, "MCHsGen", tlc.render_cfg(_cfg("MCHsGen.cfg.tmpl"), {"GLat": GLAT, "MaxReq": 1000}),
+    behs = tlc.simulate(SPEC_DIR, "MCHsGen", tlc.render_cfg(_cfg("MCHsGen.cfg.tmpl"), {"GLat": GLAT, "MaxReq": 1000, "MaxResets": 2}),
                         num=20 if quick else 300, depth=60, seed=rep.seed * 5 + 3, timeout=1800)
     drift = 0
     for b in behs:
@@ -726,8 +830,11 @@ def check_C04(rep):
             if st["out"]["valid"] != r["valid"] or (r["valid"] and st["out"]["data"] != r["data"]):
                 drift += 1          # Ref leaves latency / priority free: a different legal choice is not a violation
     rep.extra["generator_prediction_drift_cycles"] = drift
-    for _ in range(20 if quick else 400):
-        grun(random_generator_stimulus(rng, 150), "random")
+    for n in range(20 if quick else 400):
+        stim = random_generator_stimulus(rng, 150)
+        grun(stim, "random")
+        if n % 3 == 0:          # the same schedule with domain resets: idle, pending, and in the middle of a handshake
+            grun(with_resets(rng, stim, rng.randint(1, 4)), "random-with-resets")
     # the repository's two generator tests
     rec = grun([{"ack": False, "nak": False, "stall": False, "ready": False}] * 2
                + [{"ack": True, "nak": False, "stall": False, "ready": False}]
@@ -760,37 +867,71 @@ TABLE = {     # documented thresholds, used only to *place* stimuli around them 
 HIGH, FULL, LOW = 0, 1, 2
 
 
+TIMER_VARIANTS = ("2if", "1if", "4if", "attach")
+
+
 class TimerDriver:
-    def __init__(self, config):
+    """Real USBInterpacketTimer in one of its documented clock configurations, with
+      "1if"/"2if"/"4if": that many InterpacketTimerInterfaces added with add_interface();
+      "attach": one interface added, fanned out with InterpacketTimerInterface.attach() to two subordinate
+                interfaces and one bare start Signal (the way USBDevice and the endpoint multiplexers do it).
+    A stimulus step is {start, speed, via, rst}; `via` selects which start input carries the strobe."""
+
+    def __init__(self, config, variant="2if"):
         use_repo()
+        from amaranth import Signal
         from ..sim import CycleDriver
         from luna.gateware.usb.usb2.packet import USBInterpacketTimer, InterpacketTimerInterface
         clk, fs_only = CONFIGS[config]
         dut = USBInterpacketTimer(domain_clock=clk, fs_only=fs_only)
-        self.ifaces = [InterpacketTimerInterface(), InterpacketTimerInterface()]
-        for i in self.ifaces:
-            dut.add_interface(i)
-        a, b = self.ifaces
-        self.drv = CycleDriver(dut, {"start": a.start, "start2": b.start, "speed": dut.speed},
-                               {"txa": a.tx_allowed, "txt": a.tx_timeout, "rxt": a.rx_timeout,
-                                "txa2": b.tx_allowed, "txt2": b.tx_timeout, "rxt2": b.rx_timeout},
-                               domain="usb", clocks={"usb": 1 / clk},
-                               bool_outputs=("txa", "txt", "rxt", "txa2", "txt2", "rxt2"))
+        self.variant = variant
+        if variant == "attach":
+            main = InterpacketTimerInterface()
+            dut.add_interface(main)
+            subs = [InterpacketTimerInterface(), InterpacketTimerInterface()]
+            bare = Signal(name="bare_start")
+            def glue(m):
+                m.d.comb += main.attach(subs[0], subs[1], bare)
+            top = usb_top(dut, extra=glue)
+            self.starts = [subs[0].start, subs[1].start, bare]
+            self.watch = [subs[0], subs[1], main]
+        else:
+            n = {"1if": 1, "2if": 2, "4if": 4}[variant]
+            ifs = [InterpacketTimerInterface() for _ in range(n)]
+            for i in ifs:
+                dut.add_interface(i)
+            top = usb_top(dut)
+            self.starts = [i.start for i in ifs]
+            self.watch = ifs
+        ins = {"speed": dut.speed, "rst": top.cd.rst}
+        for k, sig in enumerate(self.starts):
+            ins["start%d" % k] = sig
+        outs = {}
+        for k, i in enumerate(self.watch):
+            outs["txa%d" % k], outs["txt%d" % k], outs["rxt%d" % k] = i.tx_allowed, i.tx_timeout, i.rx_timeout
+        self.drv = CycleDriver(top, ins, outs, domain="usb", clocks={"usb": 1 / clk}, bool_outputs=tuple(outs))
 
     def run(self, stim):
-        """stim: [{start: bool, speed: int, via: 0|1}] -> records {start, speed, txa, txt, rxt}."""
-        raw = self.drv.run([{"start": int(s["start"] and s.get("via", 0) == 0),
-                             "start2": int(s["start"] and s.get("via", 0) == 1), "speed": s["speed"]} for s in stim])
+        ns = len(self.starts)
+        drive = []
+        for s in stim:
+            d = {"speed": s["speed"], "rst": int(s.get("rst", False))}
+            for k in range(ns):
+                via = s.get("via", 0)
+                d["start%d" % k] = int(bool(s["start"]) and (via == "all" or via % ns == k))
+            drive.append(d)
+        raw = self.drv.run(drive)
         rec = []
         for s, r in zip(stim, raw):
-            rec.append({"start": bool(s["start"]), "speed": s["speed"],
-                        "outs": [{"txa": r["txa"], "txt": r["txt"], "rxt": r["rxt"]},
-                                 {"txa": r["txa2"], "txt": r["txt2"], "rxt": r["rxt2"]}]})
+            rec.append({"start": bool(s["start"]), "speed": s["speed"], "rst": bool(s.get("rst", False)),
+                        "outs": [{"txa": r["txa%d" % k], "txt": r["txt%d" % k], "rxt": r["rxt%d" % k]}
+                                 for k in range(len(self.watch))]})
         return rec
 
 
-def timer_stimuli(rng, config, speeds, quick):
-    """Start schedules for one configuration, using only `speeds`."""
+def timer_stimuli(rng, config, speeds, quick, reduced=False):
+    """Start schedules for one configuration, using only `speeds` (reduced: without the restart sweep and the
+    speed-switch schedules - used for the additional DUT variants)."""
     tab = TABLE[config]
     longest = max(v[2] for v in tab.values())
     out = []
@@ -802,35 +943,54 @@ def timer_stimuli(rng, config, speeds, quick):
         ref = tab.get(s, tab[FULL])
         # from reset (no start), and a start followed by a full run past every threshold
         out.append(seg(s, ref[2] + 4, start_first=False) + seg(s, ref[2] + 6, via=1))
+        if reduced:
+            continue
         # restarts shortly before / at / after each threshold
         stim = seg(s, 3, start_first=False)
         for th in ref:
             for d in (-1, 0, 1):
-                stim += seg(s, th + d + 1, via=rng.randrange(2))
+                stim += seg(s, th + d + 1, via=rng.randrange(12))
         stim += seg(s, ref[2] + 3)
         out.append(stim)
     # speed switches in mid-count (the indication follows the currently selected speed)
-    if len(speeds) > 1:
+    if len(speeds) > 1 and not reduced:
         for _ in range(3 if quick else 20):
             stim = []
             for _ in range(4):
-                stim += [{"start": True, "speed": rng.choice(speeds), "via": rng.randrange(2)}]
+                stim += [{"start": True, "speed": rng.choice(speeds), "via": rng.randrange(12)}]
                 for _ in range(rng.randint(1, 5)):
                     sp = rng.choice(speeds)
                     stim += [{"start": False, "speed": sp}] * rng.choice([1, 2, 9, 22, 60, longest // 3])
             out.append(stim)
-    # random schedules
-    for _ in range(3 if quick else 40):
+    # random schedules: starts from any / all interfaces, held starts, the speed changed right after the start
+    # strobe, and the domain reset asserted in mid-count (alone, or together with a start)
+    for _ in range(2 if reduced else (3 if quick else 40)):
         stim = []
         sp = rng.choice(speeds)
         for _ in range(rng.randint(6, 14)):
             if rng.random() < 0.3:
                 sp = rng.choice(speeds)
             gap = rng.choice([0, 1, 2, 5, 11, 33, 81, rng.randint(0, longest + 5)])
-            stim += [{"start": True, "speed": sp, "via": rng.randrange(2)}]
-            if rng.random() < 0.2:
-                stim += [{"start": True, "speed": sp, "via": rng.randrange(2)}]      # start held for two cycles
+            r = rng.random()
+            if r < 0.15:
+                stim += [{"start": rng.random() < 0.3, "speed": sp, "via": rng.randrange(12), "rst": True}] * rng.choice([1, 1, 3])
+            else:
+                stim += [{"start": True, "speed": sp, "via": "all" if r < 0.3 else rng.randrange(12)}]
+                if rng.random() < 0.2:
+                    stim += [{"start": True, "speed": sp, "via": rng.randrange(12)}]      # start held for two cycles
+            if rng.random() < 0.3:
+                sp = rng.choice(speeds)                                                  # new speed right after the strobe
             stim += [{"start": False, "speed": sp}] * gap
+        out.append(stim)
+    # a reset exactly when / just before / just after each strobe would be due
+    for s0 in speeds:
+        ref = tab.get(s0, tab[FULL])
+        stim = [{"start": True, "speed": s0, "via": 0}]
+        for th in ref[:2] if quick else ref:
+            for d in (-1, 0, 1):
+                stim += [{"start": False, "speed": s0}] * max(0, th + d)
+                stim += [{"start": False, "speed": s0, "rst": True}]
+        stim += [{"start": False, "speed": s0}] * (ref[2] + 3)
         out.append(stim)
     return out
 
@@ -856,6 +1016,9 @@ def token_timer_stimulus(rng, speeds, config):
         if rng.random() < 0.3:
             st.set_speed(rng.choice(speeds))
             st.idle(rng.randint(1, 12))
+        if rng.random() < 0.2:
+            st.reset_here(rng.choice([1, 2]))           # domain reset between packets: the timer restarts from it
+            st.idle(rng.choice([ref[0] + 3, 2, ref[1] + 2]))
     st.idle(3)
     return st
 
@@ -905,33 +1068,39 @@ def check_C05(rep):
         rep.add_mc("MCIpTimer %s (real constants)" % config, res, {"Config": config})
 
     groups = []
-    for config, (clk, fs_only) in CONFIGS.items():
-        tdrv = TimerDriver(config)
+    extra_variants = TIMER_VARIANTS[1:]
+    for ci, (config, (clk, fs_only)) in enumerate(CONFIGS.items()):
         ddrv = DetectorDriver("token", domain_clock=clk, fs_only=fs_only)
         if fs_only:
             classes = [("clean", [FULL, HIGH, LOW])]              # HIGH/LOW unconstrained there: any behaviour is legal
         else:
             classes = [("clean", [HIGH, FULL]), ("witness-low-speed", [LOW, FULL, HIGH])]
         items = []
+
+        def run_timer(tdrv, stim, cls):
+            rec = tdrv.run(stim)
+            rep.add_eval(len(rec))
+            for r in rec:
+                o = r["outs"][0]
+                if r["start"] or r["rst"] or o["txa"] or o["txt"] or o["rxt"]:
+                    rep.nontriv((config, tdrv.variant, r["speed"], r["start"], r["rst"], o["txa"], o["txt"], o["rxt"]))
+            items.append(({"view": "timer", "steps": rec},
+                          {"dut": "USBInterpacketTimer", "config": config, "variant": tdrv.variant, "class": cls}))
+            return rec
+
+        tdrv = TimerDriver(config, "2if")
         for cls, speeds in classes:
             first = len(items)
             for stim in timer_stimuli(rng, config, speeds, quick):
-                rec = tdrv.run(stim)
-                rep.add_eval(len(rec))
-                for r in rec:
-                    o = r["outs"][0]
-                    if r["start"] or o["txa"] or o["txt"] or o["rxt"]:
-                        rep.nontriv((config, "timer", r["speed"], r["start"], o["txa"], o["txt"], o["rxt"]))
-                items.append(({"view": "timer", "steps": rec},
-                              {"dut": "USBInterpacketTimer", "config": config, "class": cls}))
+                run_timer(tdrv, stim, cls)
             for _ in range(4 if quick else 40):
                 st = token_timer_stimulus(rng, speeds, config)
                 rec = ddrv.run(st.steps)
                 rep.add_eval(len(rec))
-                steps = [{"nt": r["nt"], "speed": r["speed"], "rfr": r["rfr"]} for r in rec]
+                steps = [{"nt": r["nt"], "speed": r["speed"], "rfr": r["rfr"], "rst": r["rst"]} for r in rec]
                 for r in steps:
-                    if r["nt"] or r["rfr"]:
-                        rep.nontriv((config, "token", r["speed"], r["nt"], r["rfr"]))
+                    if r["nt"] or r["rfr"] or r["rst"]:
+                        rep.nontriv((config, "token", r["speed"], r["nt"], r["rfr"], r["rst"]))
                 items.append(({"view": "token", "steps": steps},
                               {"dut": "USBTokenDetector.ready_for_response", "config": config, "class": cls}))
             if cls == "clean" and config == "60MHz":
@@ -939,6 +1108,17 @@ def check_C05(rep):
                 rep.sample({"config": config, "dut": "USBInterpacketTimer",
                             "strobes": [dict(r["outs"][0], cycle=n, speed=r["speed"]) for n, r in enumerate(rec)
                                         if any(r["outs"][0].values())][:6]})
+        # the other ways of attaching users to the timer: 1 / 4 interfaces, InterpacketTimerInterface.attach() fan-out
+        # (quick: one variant per clock configuration, rotated by the seed so that every variant is elaborated in
+        # every run; thorough: every variant in every configuration)
+        variants = [extra_variants[(rep.seed + ci) % len(extra_variants)]] if quick else list(extra_variants)
+        all_speeds = [FULL, HIGH, LOW]
+        for variant in variants:
+            vdrv = TimerDriver(config, variant)
+            for stim in timer_stimuli(rng, config, all_speeds, quick, reduced=True):
+                run_timer(vdrv, stim, "variant")
+        rep.extra.setdefault("configurations_elaborated", []).append(
+            {"clock_config": config, "timer_variants": ["2if"] + variants, "token_detector": True})
         # spread the long traces over the chunks
         items.sort(key=lambda it: -len(it[0]["steps"]))
         nchunks = 3 if config == "60MHz" else 2
